@@ -1,8 +1,8 @@
 """C01 — the matrix-triple-product DFT equals the defining Fourier sum and is invertible.
 
 Tie: Model/Fourier.lean (`dft2`, `idft2`, hand model of lentil/fourier.py, generic in the value type) is run at
-complex doubles by the driver (ops c01.dft2 / c01.idft2 / c01.roundtrip; c01.out runs the out= buffer model of
-Model/FourierOut.lean and its outcome — written / TypeError / ValueError — is compared with the real call's) and compared with the real
+complex doubles by the driver (ops c01.dft2 / c01.idft2 / c01.roundtrip; c01.out / c01.iout run the out= buffer models (dft2Out / idft2Out) of
+Model/FourierOut.lean and their outcome — written / TypeError / ValueError — is compared with the real call's) and compared with the real
 lentil.fourier.dft2 / idft2; the theorems of Props/C01.lean are about the very same definitions at K = ℂ, R = ℝ.
 Oracle: extended-precision (np.longdouble) evaluation of the defining double sum, the round trip and Parseval."""
 import numpy as np
@@ -12,26 +12,27 @@ from vlib import fbits, bitsf
 LEVEL_TEXT = ('Lean 4 theorems about the executable model of fourier.dft2/idft2 instantiated at ℂ/ℝ; the model is proved equal to the wiring regenerated from fourier.py on every run (centring, which offset/shift/sampling feeds which matrix factor, .T, product order, unitary factor, idft2 plumbing); for all shapes, real '
               'samplings α_r ≠ α_c, real shifts, integer offsets and both flags: the triple product equals the defining double sum '
               'with factor √|α_r α_c| exactly when unitary; linearity; zero-padded embedding = sub-array with offset; shift = input phase ramp; idft2 equals its own defining sum (any sampling, shape, shift, both flags); on a full or oversampled period (α = 1/K, K ≥ m, same flag) '
-              'idft2 ∘ dft2 = id; with integer offsets forward, an integer shift back and any real forward shift the full-period round trip is the circularly rolled input times the shift\'s phase ramp (idft2_dft2_full_period_rolled), on an oversampled period with a forward real shift the input times that ramp (idft2_dft2_oversampled_shifted); under the unitary flag dft2 and idft2 conserve Σ|·|² (roots-of-unity orthogonality); out= of dft2 in a buffer model (guard regenerated, np.dot\'s acceptance condition by hand): which buffers are written, and that a written buffer holds the values of a fresh allocation, i.e. the defining sum (dft2_out_buffer_holds_defining_sum). The '
+              'idft2 ∘ dft2 = id; with integer offsets forward, an integer shift back and any real forward shift the full-period round trip is the circularly rolled input times the shift\'s phase ramp (idft2_dft2_full_period_rolled), on an oversampled period with a forward real shift the input times that ramp (idft2_dft2_oversampled_shifted); under the unitary flag dft2 and idft2 conserve Σ|·|² (roots-of-unity orthogonality); out= of dft2 in a buffer model (guard regenerated, np.dot\'s acceptance condition by hand): which buffers are written, and that a written buffer holds the values of a fresh allocation, i.e. the defining sum (dft2_out_buffer_holds_defining_sum); out= of idft2 in the same buffer model (out handed to dft2, conjugation and division in place: three flags regenerated from idft2\'s statements): the same buffers are written (idft2_out_accepted_iff) and a written buffer is the returned object and holds the values of idft2 without out=, i.e. the defining inverse sum, for both flags (idft2_out_buffer, idft2_out_buffer_holds_defining_sum). The '
               'same model definitions are run at complex doubles against the real functions on every check.')
 LEVEL_NOTE = ('Trusted: Lean kernel + Mathlib; that np.dot/np.outer/np.exp compute the sums/products/exponentials the hand model '
               'writes (checked differentially to 1e-9 relative, not proved); floating-point rounding is not modelled. The out= '
-              'clause: dft2_out_buffer / dft2_out_accepted_iff are about a buffer model whose acceptance condition (exactly complex128, shape (M, N), C-contiguous by strides, writeable) is NumPy\'s np.dot(out=) contract written by hand — trusted, and compared with the real outcome on every generated buffer (op c01.out); out=f (aliasing), alignment and idft2(out=) have no model: correspondence and oracle only.')
+              'clause: dft2_out_buffer / dft2_out_accepted_iff are about a buffer model whose acceptance condition (exactly complex128, shape (M, N), C-contiguous by strides, writeable) is NumPy\'s np.dot(out=) contract written by hand — trusted, and compared with the real outcome on every generated buffer (ops c01.out, c01.iout); idft2_out_buffer is about idft2Out, which follows the regenerated flags Gen.fwIdft2PassesOut / ConjInPlace / DivideInPlace (that np.conj(X, out=X) and np.divide(X, n, out=X) write X and return it is NumPy\'s contract, trusted, observed); out=f (aliasing) and alignment have no model: correspondence and oracle only.')
 TECHNIQUE = 'Lean 4 proof (Finset sums, Complex.exp, primitive roots of unity) over a generic executable model + differential correspondence'
 GEN = ['FourierWiring', 'Extent', 'FieldIdx', 'FieldMerge', 'FieldDispatch']
 OPS = ['C01']
 RULE = ('cases: dft2 / idft2 with input and output shapes drawn independently from 1..7 (thorough 1..12 with a 5 % tail up to 16; forced 1x1, single row/column, '
         'even/odd, non-square), complex Gaussian data, per-axis α drawn independently from {1/n_in, 1/n_out, random in ±(0.01,0.6)}, '
-        'real shifts in [-3,3], integer offsets in [-9,9], both flags, scalar / pair / default forms of alpha, shape, shift, offset, complex / float / int64 input, with and without out= (incl. float64 / int64 buffers that must be refused with TypeError), the call made on the caller\'s own array, full and oversampled round trips, C / Fortran / strided / read-only inputs, out= buffers of every class dft2\'s guard or np.dot(out=) distinguishes (Fortran-ordered — accepted when a single row/column —, strided, read-only, complex64, clongdouble, object, wrong shape, transposed, 1-D, complex64 of the wrong shape: the buffer model\'s outcome must be the real one; for the oracle an exception or the right values, never silently something else), full-period round trips of which half carry integer offsets forward and an integer shift back and a quarter a real forward shift too (drawn from a sub-stream seeded by the case\'s first sample), bursts of repeated shapes with fresh '
-        'offsets (coordinate cache); plus full-period round trips. distinct = (kind, shapes, α class per axis, shift/offset zero-ness, '
+        'real shifts in [-3,3], integer offsets in [-9,9], both flags, scalar / pair / default forms of alpha, shape, shift, offset, complex / float / int64 input, with and without out= (incl. float64 / int64 buffers that must be refused with TypeError; idft2 cases carry the same buffer classes and are run through the idft2 buffer model), the call made on the caller\'s own array, full and oversampled round trips, C / Fortran / strided / read-only inputs, out= buffers of every class dft2\'s guard or np.dot(out=) distinguishes (Fortran-ordered — accepted when a single row/column —, strided, read-only, complex64, clongdouble, object, wrong shape, transposed, 1-D, complex64 of the wrong shape: the buffer model\'s outcome must be the real one; for the oracle an exception or the right values, never silently something else), full-period round trips of which half carry integer offsets forward and an integer shift back and a quarter a real forward shift too (drawn from a sub-stream seeded by the case\'s first sample), bursts of repeated shapes with fresh '
+        'offsets (coordinate cache); all-zero and single-sample input planes (complex / float / int64) written by dft2 and idft2 into a pre-filled non-zero out= buffer (12 per quick run, 200 thorough, a leading block of 60 in the search tier: the buffer must hold the zeros of a fresh allocation, not its stale contents); plus full-period round trips. distinct = (kind, shapes, α class per axis, shift/offset zero-ness, '
         'flags) signature with values; non-trivial = outside the region the test-suite samples (square α = 1/n isotropic, zero '
         'shift and offset, fresh allocation) A ≈5 % sample (search tier: a leading block of 260 + a >32-key cache-churn sequence) comes from an extremes stream: samplings within 3e-5 … one ulp of 1/n on centred same-shape transforms, in-place out=f, 1-D-like arrays of up to 1025 rows (quick ≤ 100), data at 1e-150 … 1e150, int8…uint32 inputs at their limits, shifts within 1e-9 of integers, shifts to 1e3, offsets to ±1000, samplings 1e-9 … 10; all tolerances are relative to Σ|f|.')
-TRUSTED = ['np.dot(A, B, out=buf) accepts buf exactly when it is a writeable, aligned, C-contiguous complex128 array of the result\'s shape and raises ValueError otherwise; np.can_cast(complex, dtype) is true for complex128 / clongdouble / object and false for complex64 / float64 / int64 (Model/FourierOut.lean dotAccepts, BufDtype.canCastComplex: written by hand, compared with the real outcome on every generated buffer)',
+TRUSTED = ['np.dot(A, B, out=buf) accepts buf exactly when it is a writeable, aligned, C-contiguous complex128 array of the result\'s shape and raises ValueError otherwise; np.can_cast(complex, dtype) is true for complex128 / clongdouble / object and false for complex64 / float64 / int64 (Model/FourierOut.lean dotAccepts, BufDtype.canCastComplex: written by hand, compared with the real outcome on every generated buffer, for dft2 and for idft2)',
+           'np.conj(X, out=X) and np.divide(X, n, out=X) overwrite X with the conjugate / quotient and return X itself (Model/FourierOut.lean idft2Out; observed by c01.iout: the real buffer after the call holds the returned values and is the returned object)',
            'np.dot / np.outer / np.exp / np.conj / np.multiply(out=) compute the products, sums and exponentials written in '
            'Model/Fourier.lean (observed through the 1e-9 relative tolerance of the correspondence, not proved)',
            'functools.lru_cache on _dft2_coords returns the arrays it was given (history independence is only observed: bursts of '
            'repeated shapes in the generator)']
-UNPROVEN = ['out=: the theorems are about a buffer model; its np.dot(out=) acceptance condition is NumPy\'s contract written by hand (trusted, observed by c01.out on every generated buffer), only dft2\'s own dtype guard and "the result is the buffer" are regenerated. Not in the model: the in-place call out=f (buffer aliasing the input; relies on NumPy evaluating E1.dot(f) before writing — in-place correspondence cases only), alignment, non-2-D or empty results, and idft2(out=) (conj/divide written into the buffer: differential and oracle only)',
+UNPROVEN = ['out=: the theorems are about a buffer model; its np.dot(out=) acceptance condition is NumPy\'s contract written by hand (trusted, observed by c01.out on every generated buffer), only dft2\'s own dtype guard and "the result is the buffer" are regenerated. Not in the model: the in-place call out=f (buffer aliasing the input; relies on NumPy evaluating E1.dot(f) before writing — in-place correspondence cases only), alignment, non-2-D or empty results. idft2(out=) is in the buffer model since wave 12 (idft2Out; idft2_out_buffer), its aliasing call out=F is not',
             'the rolled round trip is proved on a full period only (α = 1/m, 1/n, output shape = input shape); on an oversampled period a forward real shift is proved to give the phase-ramped copy (idft2_dft2_oversampled_shifted); with offsets or an inverse shift on an oversampled period no theorem describes it and it is not generated; a non-integer inverse shift has no theorem']
 ASSUMPTIONS = ['shapes are at least 1x1; α, shifts real; offsets integers; inversion/Parseval only claimed on a full period '
                '(α = 1/m, 1/n, output shape = input shape; zero shift/offset for idft2 ∘ dft2 = id, integer offsets and integer inverse shift for the rolled form) with the same flag on both sides; out= buffers are aligned and do not overlap the input (except the in-place cases, oracle only)']
@@ -219,10 +220,26 @@ def _churn(rng):
         out.append(_blank('dft2', sh, osh, re, im, [0.3, 0.2], True, shift=[0.25, -1.5], offset=[int(rng.integers(-3, 4)), int(rng.integers(-3, 4))]))
     return out
 
+def _zero_out_case(rng, kmax):
+    """an all-zero (one in four: all-zero but for a single sample) input plane written into a caller-supplied, pre-filled non-zero
+    out= buffer (a work buffer reused for successive planes of which a later one is empty), dft2 and idft2, complex / float / int64
+    input: the buffer must end up holding what a fresh allocation holds — zeros — not its stale contents (an early return on an empty
+    input would leave them)"""
+    while True:
+        c = _case(rng, kmax)
+        if c['kind'] in ('dft2', 'idft2'): break
+    n = len(c['re']); t = int(rng.integers(0, 4))
+    re, im = [0.0] * n, [0.0] * n
+    if t == 3:
+        k = int(rng.integers(0, n)); re[k] = float(rng.uniform(0.5, 2.0)) * (-1.0) ** int(rng.integers(0, 2)); im[k] = float(rng.normal())
+    c.update({'re': re, 'im': im, 'out': True, 'out_kind': 'ok', 'zero_input': t != 3, 'dtype': ['complex', 'float', 'int', 'complex'][t]})
+    return c
+
 def generate(rng, tier):
     n, kmax = {'quick': (300, 7), 'thorough': (8000, 12), 'search': (700, 7)}[tier]
     out, prev = [], None
     if tier == 'search':                 # only run once a tie is already broken: the nasty inputs first
+        out += [_zero_out_case(rng, 7) for _ in range(60)]
         out += [_extreme(rng, True) for _ in range(260)] + _churn(rng)
     for i in range(n):
         k = 16 if (tier == 'thorough' and rng.integers(0, 20) == 0) else kmax      # a 5 % tail of shapes up to 16
@@ -230,6 +247,8 @@ def generate(rng, tier):
             c = _extreme(rng, False); out.append(c); prev = None; continue
         c = _case(rng, k, prev); out.append(c); prev = c
     if tier == 'thorough': out += [_extreme(rng, True) for _ in range(150)] + _churn(rng)
+    # appended after the main stream, so that the cases of existing seeds are unchanged
+    if tier != 'search': out += [_zero_out_case(rng, kmax) for _ in range({'quick': 12, 'thorough': 200}[tier])]
     return out
 
 def _full_period(c):
@@ -257,6 +276,7 @@ def tags(c):
     if c['alpha'][0] < 0 or c['alpha'][1] < 0: t.append('negative-alpha')
     for a in c['aclass']: t.append('alpha:' + a)
     if c.get('out_kind') == 'alias': t.append('out=f (in place)')
+    if 'zero_input' in c: t.append('zero-input+out=' if c['zero_input'] else 'one-sample-input+out=')
     if max(c['shape'] + c['oshape']) > 64: t.append('rows>64')
     if max(c['shape'] + c['oshape']) > 256: t.append('rows>256')
     for k, v in c.get('forms', {}).items(): t.append(f'form:{k}={v}')
@@ -409,7 +429,11 @@ def requests(c, io):
             # the out= path in the buffer model (Model/FourierOut.lean): dft2's guard, then np.dot's acceptance condition
             rq.append({'op': 'c01.out', **base, 'offset': c['offset'], 'buf': _buf_desc(_make_buf(c))})
         return rq
-    return [{'op': 'c01.idft2', **base}]
+    rq = [{'op': 'c01.idft2', **base}]
+    if c.get('out_kind', 'ok' if c['out'] else 'none') in BUFFER_KINDS:
+        # idft2(out=) in the buffer model (Model/FourierOut.lean idft2Out): out handed to dft2, then conj / divide in place
+        rq.append({'op': 'c01.iout', **base, 'buf': _buf_desc(_make_buf(c))})
+    return rq
 
 def _tol(c):
     """relative to the data scale only (so that nano- and giga-scale data are judged alike); grows mildly with the phase size"""
@@ -433,8 +457,14 @@ def compare(c, io, mo):
         if o['outcome'] != io.get('out_outcome'):
             return f"out= ({c.get('out_kind')} buffer {_buf_desc(_make_buf(c))}): buffer model says {o['outcome']}, the real call {io.get('out_outcome')}"
         if o['outcome'] == 'ok':
-            if not o['is_buffer']: return 'buffer model: result is not the buffer'
+            if not o.get('is_buffer') or 'B' not in o: return 'buffer model: result is not the buffer'
             a, b = _unpack(io['F']), _model_arr(o['B'])
+            if c['kind'] == 'idft2':
+                # the real buffer after the call vs the real fresh result must agree exactly when the model's buffer and result do
+                bd = io['exotic']['buf_diff'] if 'exotic' in io else io.get('buf_diff')
+                md = float(np.max(np.abs(_model_arr(o['B']) - _model_arr(o['F'])))) if b.size else 0.0
+                if md != 0.0: return f'idft2 out=: buffer model leaves the buffer {md:.3e} away from the returned values'
+                if bd is None or not 0 <= bd <= tol: return f'idft2 out=: the real buffer is {bd} away from the fresh result, the model says it holds it'
             same = io['exotic']['same_obj'] if 'exotic' in io else io.get('same_obj')
             if not same: return 'out= accepted: the model returns the buffer, the real call another array'
             d = float(np.max(np.abs(a - b))) if a.shape == b.shape and a.size else (0.0 if a.shape == b.shape else float('inf'))
